@@ -98,7 +98,7 @@ class PDUv0Rx(codec.Envelope):
 		codec.Envelope.__init__(self, *args, **kw)
 
 		# Field 'soft-bits' is either 148 (GMSK) or 444 (8-PSK) octets long
-		self.STRUCT[-2].get_len = lambda _, data: 444 if len(data) > 148 else 148
+		self.STRUCT[-2].get_len = lambda _, data: 444 if len(data) > 148 + 2 else 148
 
 class PDUv0Tx(codec.Envelope):
 	STRUCT = (
